@@ -82,6 +82,10 @@ def run(tier):
         for sd5 in range(5 if thorough else 2):
             iid += 1
             inputs.append({"id": iid, "mode": "gapslong", "n": n, "seed": 5 * rng.randrange(1 << 36) + (sd5 + iid) % 5, "calls": [{"t": "maurer"}]})
+    # Maurer with 127 first occurrences inside one window (sum of logarithms far above the typical one for a stretch)
+    for K in ([205, 211, 215, 230] + ([300, 400] if thorough else [])):
+        iid += 1
+        inputs.append({"id": iid, "mode": "lateburst", "n": 7 * (1280 + K) + (K % 3), "seed": 1, "calls": [{"t": "maurer"}]})
     stattrace.trace_inputs(run, hz, inputs)
     run.rule = ("rank: every bit sequence forming 1-3 matrices of size 2/3(/4) plus tail, 32x32 matrices of every rank by construction; "
                 "linear complexity: every bit sequence for m=4..10(12), descriptor blocks (LFSR by lemma, 0^k 1 0^.., zero, one, 0^(m-1)1) for m=500/1000/5000; "
